@@ -200,7 +200,7 @@ pub fn run(cfg: &Cfg) -> i32 {
             }
         }
         let strat = gen::raw_hist_strategy(20, 220);
-        engine::pbt(ctx, seedf(1), cfg.per_shard(100_000, 2_000_000), &strat, |ctx, raw: &RawHist| {
+        engine::pbt(ctx, seedf(1), cfg.per_shard(600_000, 8_000_000), &strat, |ctx, raw: &RawHist| {
             let (_, start) = match gen::start_of(raw) {
                 Some(x) => x,
                 None => {
